@@ -5,6 +5,7 @@ import (
 	"go/constant"
 	"go/token"
 	"go/types"
+	"sort"
 	"strings"
 
 	"golang.org/x/tools/go/ssa"
@@ -335,30 +336,64 @@ func c03(c *an.Ctx) {
 		}
 	})
 
-	c.Check("R-TABLE", "scalar pass-through type lists of diff.markReplaced and merge.mergeReplaced are equal", 2, func(o *an.O) {
-		fd1, pp1 := p.FuncDecl(dp, "markReplaced")
-		fd2, pp2 := p.FuncDecl(mp, "mergeReplaced")
-		an.Need(fd1 != nil && fd2 != nil, "markReplaced / mergeReplaced")
-		s1, s2 := an.Switches(fd1, pp1), an.Switches(fd2, pp2)
-		an.Need(len(s1) >= 1 && len(s2) >= 1, "type switches in markReplaced / mergeReplaced")
-		o.SitePos(p.Pos(s1[0].Node.Pos()))
-		o.SitePos(p.Pos(s2[0].Node.Pos()))
-		a, b := s1[0].AllCaseTypes(), s2[0].AllCaseTypes()
-		onlyA, onlyB := an.SetDiff(a, b)
-		if len(onlyA) > 0 {
-			o.Fail(p.Pos(s1[0].Node.Pos()), "types passed through raw by the encoder but unwrapped as 1-element arrays by the decoder: %v", onlyA)
-		}
-		if len(onlyB) > 0 {
-			o.Fail(p.Pos(s2[0].Node.Pos()), "types the decoder passes through but the encoder wraps: %v", onlyB)
-		}
-		// the pass-through clause returns the value itself; the default wraps
-		for _, t := range a {
-			if strings.HasPrefix(t, "[]") || strings.HasPrefix(t, "map[") {
-				o.Fail(p.Pos(s1[0].Node.Pos()), "markReplaced passes %s through raw: deltas of that shape collide with the removed/replaced/recursive encodings", t)
+	c.Check("R-POST", "diffArray compares every new element with its old counterpart (matched by reorder key, which identifies objects by __key only) - no element is assumed unchanged without Diff", 1, func(o *an.O) {
+		fn := c.NeedFunc(dp, "diffArray")
+		var calls []ssa.Instruction
+		for _, i := range an.Calls(fn, an.Mod(dp, "", "Diff")) {
+			if an.LoopHeaderOf(i) != nil {
+				calls = append(calls, i)
 			}
 		}
-		if s1[0].HasDefault() == nil || s2[0].HasDefault() == nil {
-			o.Fail(p.Pos(s1[0].Node.Pos()), "markReplaced / mergeReplaced need a default clause that wraps / unwraps")
+		if len(calls) == 0 {
+			o.Fail(p.Pos(fn.Pos()), "diffArray does not diff the elements of the new array against their old counterparts")
+			return
+		}
+		for _, call := range calls {
+			o.Site(call)
+			h := an.LoopHeaderOf(call)
+			body := h.Succs[0]
+			if len(body.Instrs) == 0 {
+				continue
+			}
+			first := body.Instrs[0]
+			if first == call {
+				continue
+			}
+			if an.Reach(fn, first, an.NewBlocker(calls...))[h.Instrs[0]] {
+				o.FailAt(call, "an iteration of diffArray's element loop can end without Diff(old counterpart, new element): an element matched by its reorder key is assumed unchanged, but the key of an object is only its __key (a scalar equal to an object's __key, or two objects with one __key and different fields, would produce no delta and the client keeps the old value)")
+			}
+		}
+	})
+
+	c.Check("R-TABLE", "scalar pass-through type lists of diff.markReplaced and merge.mergeReplaced are equal", 2, func(o *an.O) {
+		// Decided on the SSA form (helpers inlined), not on the shape of a type switch: for every
+		// type T either function tests its argument against, the control flow is explored with
+		// "the argument is a T" fixed; T is passed through when a return of the argument itself is
+		// reached. With no test succeeding (any other type) nothing may be passed through.
+		f1 := c.NeedFunc(dp, "markReplaced")
+		f2 := c.NeedFunc(mp, "mergeReplaced")
+		a, otherA := passThroughTypes(f1)
+		b, otherB := passThroughTypes(f2)
+		o.SitePos(p.Pos(f1.Pos()))
+		o.SitePos(p.Pos(f2.Pos()))
+		if len(a) == 0 || len(b) == 0 {
+			o.Fail(p.Pos(f1.Pos()), "markReplaced / mergeReplaced pass no scalar type through (encoder: %d, decoder: %d types)", len(a), len(b))
+			return
+		}
+		onlyA, onlyB := an.SetDiff(a, b)
+		if len(onlyA) > 0 {
+			o.Fail(p.Pos(f1.Pos()), "types passed through raw by the encoder but unwrapped as 1-element arrays by the decoder: %v", onlyA)
+		}
+		if len(onlyB) > 0 {
+			o.Fail(p.Pos(f2.Pos()), "types the decoder passes through but the encoder wraps: %v", onlyB)
+		}
+		for _, t := range a {
+			if strings.HasPrefix(t, "[]") || strings.HasPrefix(t, "map[") {
+				o.Fail(p.Pos(f1.Pos()), "markReplaced passes %s through raw: deltas of that shape collide with the removed/replaced/recursive encodings", t)
+			}
+		}
+		if otherA || otherB {
+			o.Fail(p.Pos(f1.Pos()), "markReplaced / mergeReplaced pass values of unlisted types through raw (encoder: %v, decoder: %v): everything that is not a listed scalar must be wrapped / unwrapped", otherA, otherB)
 		}
 	})
 
@@ -1046,4 +1081,66 @@ func emptyIfaceSliceValue(p *an.Prog, pkg string, v ssa.Value) bool {
 		}
 	}
 	return false
+}
+
+// passThroughTypes: the types T for which fn, given an argument of dynamic type T,
+// can return that argument itself; other reports whether it can do so when none of
+// its type tests succeeds.
+func passThroughTypes(fn *ssa.Function) (types []string, other bool) {
+	param := ssa.Value(fn.Params[0])
+	var asserts []*ssa.TypeAssert
+	an.Instrs(fn, func(i ssa.Instruction) {
+		if ta, ok := i.(*ssa.TypeAssert); ok && ta.X == param && ta.CommaOk {
+			asserts = append(asserts, ta)
+		}
+	})
+	isArg := func(v ssa.Value) bool {
+		for depth := 0; depth < 4; depth++ {
+			switch x := v.(type) {
+			case *ssa.ChangeInterface:
+				v = x.X
+				continue
+			case *ssa.MakeInterface:
+				if ex, ok := x.X.(*ssa.Extract); ok && ex.Index == 0 {
+					if ta, ok := ex.Tuple.(*ssa.TypeAssert); ok && ta.X == param {
+						// the typed value of a single-type case, boxed again - but not a slice taken apart
+						return true
+					}
+				}
+				return false
+			}
+			break
+		}
+		return v == param
+	}
+	run := func(t string) bool {
+		sim := &an.BoolSim{Fn: fn, Atom: func(v ssa.Value) (bool, bool) {
+			if ex, ok := v.(*ssa.Extract); ok && ex.Index == 1 {
+				if ta, ok := ex.Tuple.(*ssa.TypeAssert); ok && ta.X == param {
+					return ta.AssertedType.String() == t, true
+				}
+			}
+			return false, false
+		}}
+		sim.Run()
+		for _, r := range sim.Returns {
+			if len(r.Ret.Results) > 0 && isArg(an.ResultAt(r.Ret, 0)) {
+				return true
+			}
+		}
+		return false
+	}
+	seen := map[string]bool{}
+	for _, ta := range asserts {
+		t := ta.AssertedType.String()
+		if seen[t] {
+			continue
+		}
+		seen[t] = true
+		if run(t) {
+			types = append(types, t)
+		}
+	}
+	sort.Strings(types)
+	return types, run("\x00no such type")
 }
